@@ -94,7 +94,7 @@ def xz_feature_files(rng):
     out.append(("xz:check15", [dict(check=15, blocks=[dict(uncompressed=t[:50], dict_size=4096, check=bytes(64))])]))
     out.append(("xz:empty_streams", [dict(check=1, blocks=[], padding=4), dict(check=4, blocks=[]),
                                      dict(check=1, blocks=[dict(uncompressed=b"x", dict_size=4096)], padding=12)]))
-    out.append(("xz:dict40", [dict(check=1, blocks=[dict(uncompressed=t[:64], filters=[(0x21, b"\x28")])])]))
+    # (LZMA2 dictionary size byte 40 = 4 GiB - 1 is valid but each run would allocate 4 GiB under ASan: left to C03)
     return out
 
 
